@@ -9,8 +9,8 @@
    [repl_rows old new l l'] : l' is l with the consecutive block old replaced by
    new.  The frame condition of an operation is such a statement about the rows
    of the whole tree: every other row is unchanged, in unchanged order. *)
-From Coq Require Import List ZArith Bool Arith Permutation.
-From NT Require Import Sx Rose Surgery SurgeryFacts Machine MachineFacts Effects.
+From Coq Require Import List ZArith Bool Arith Permutation Sorted.
+From NT Require Import Sx Rose Surgery SurgeryFacts Machine MachineFacts Effects FrameTrees.
 Import ListNotations.
 
 (* ---- where add_child puts the new node ---- *)
@@ -124,6 +124,156 @@ Theorem C04_sort_permutation : forall k rv l, Permutation (py_sort k rv l) l.
 Proof. exact py_sort_perm. Qed.
 Print Assumptions C04_sort_permutation.
 
+(* sorted by key: ascending, descending with reverse=True (kle is vacuous for a node whose key
+   callback raises - the machine abandons the sort in that case, see sort_list) *)
+Theorem C04_sort_sorted : forall k l,
+  Sorted (kle k) (py_sort k false l) /\ Sorted (fun x y => kle k y x) (py_sort k true l).
+Proof. exact py_sort_sorted. Qed.
+Print Assumptions C04_sort_sorted.
+
+(* stable, also with reverse=True: the nodes with one key keep their relative order *)
+Theorem C04_sort_stable : forall k rv a l, filter (hk k a) (py_sort k rv l) = filter (hk k a) l.
+Proof. exact py_sort_stable. Qed.
+Print Assumptions C04_sort_stable.
+
+(* sort_children(deep=False): only the named child list is reordered *)
+Theorem C04_sort_flat : forall w ti p k rv r w',
+  step w (OSort ti p k rv false) = (Ok r, w') ->
+  exists t t' pq ch,
+    get_tree w ti = Some t /\ get_tree w' ti = Some t' /\
+    parent_path p (forest_of t) = Some pq /\ get_ch pq (forest_of t) = Some ch /\
+    get_ch pq (forest_of t') = Some (py_sort k rv ch) /\
+    repl_rows (rows p ch) (rows p (py_sort k rv ch)) (rows 0 (forest_of t)) (rows 0 (forest_of t')) /\
+    (forall tj, tj <> ti -> get_tree w' tj = get_tree w tj).
+Proof. exact sort_flat_effect. Qed.
+Print Assumptions C04_sort_flat.
+
+(* ---- remove() of one node at the level of step ---- *)
+Theorem C04_remove : forall w ti n keep r w',
+  step w (ORemove ti n keep false) = (Ok r, w') ->
+  exists t t', get_tree w ti = Some t /\ get_tree w' ti = Some t' /\ r = [] /\
+               (if keep then remove_keep t n = Some t' else remove_branch t n = Some t') /\
+               next w' = next w /\ (forall tj, tj <> ti -> get_tree w' tj = get_tree w tj).
+Proof. exact remove_effect. Qed.
+Print Assumptions C04_remove.
+
+(* ---- move_to: the branch is cut out (rows A ++ branch ++ B -> A ++ B) and inserted under the
+        target at the documented position of the child list AFTER the cut; only the top row of
+        the branch changes (its parent); registry and index are untouched ---- *)
+Theorem C04_move : forall w ti n target b r w',
+  step w (OMove ti n ti target b) = (Ok r, w') ->
+  (w' = w /\ norm_before b = NNode n) \/
+  exists t t' s f1 pq ch1 o A B C D,
+    get_tree w ti = Some t /\ get_tree w' ti = Some t' /\ rid s = n /\
+    detach n (forest_of t) = Some (s, f1) /\
+    parent_path target f1 = Some pq /\ get_ch pq f1 = Some ch1 /\
+    get_ch pq (forest_of t') = Some (place (norm_before b) s ch1) /\
+    rows 0 (forest_of t) = A ++ rows_t o s ++ B /\ rows 0 f1 = A ++ B /\
+    rows 0 f1 = C ++ D /\ rows 0 (forest_of t') = C ++ rows_t target s ++ D /\
+    reg t' = reg t /\ idx t' = idx t /\
+    (forall tj, tj <> ti -> get_tree w' tj = get_tree w tj).
+Proof. exact move_effect. Qed.
+Print Assumptions C04_move.
+
+(* ---- the shortcuts ---- *)
+Theorem C04_append_child : forall w ti n d e k t, get_tree w ti = Some t ->
+  step w (OShort ti n SAppendChild d e k) = step w (OAdd ti n d e k BNone).
+Proof. exact append_child_is_add. Qed.
+Print Assumptions C04_append_child.
+
+Theorem C04_prepend_child : forall w ti n d e k t ch, get_tree w ti = Some t ->
+  children_of n (forest_of t) = Some ch ->
+  exists b, step w (OShort ti n SPrependChild d e k) = step w (OAdd ti n d e k b) /\
+            forall x, place (norm_before b) x ch = x :: ch.
+Proof. exact prepend_child_is_add_first. Qed.
+Print Assumptions C04_prepend_child.
+
+(* prepend_sibling uses before=self, append_sibling before=next sibling (or None): the new node lands
+   directly before / directly after the node *)
+Theorem C04_sibling_positions : forall (a : list rt) t c x, NoDup (map rid (a ++ t :: c)) ->
+  place (NNode (rid t)) x (a ++ t :: c) = a ++ x :: t :: c /\
+  place (norm_before (match nth_error (a ++ t :: c) (S (length a)) with Some nx => BNode (rid nx) | None => BNone end)) x (a ++ t :: c)
+    = a ++ t :: x :: c.
+Proof. exact sibling_positions. Qed.
+Print Assumptions C04_sibling_positions.
+
+(* ---- metadata edits: one row, only its meta field; registry and index untouched ---- *)
+Theorem C04_meta : forall w ti n o r w',
+  step w (OMeta ti n o) = (Ok r, w') ->
+  exists t t' A B p s,
+    get_tree w ti = Some t /\ get_tree w' ti = Some t' /\ rid s = n /\
+    rows 0 (forest_of t) = A ++ (p, n, rinfo s) :: B /\
+    rows 0 (forest_of t') = A ++ (p, n, set_meta_i (apply_meta o (i_meta (rinfo s))) (rinfo s)) :: B /\
+    reg t' = reg t /\ idx t' = idx t /\
+    (forall tj, tj <> ti -> get_tree w' tj = get_tree w tj).
+Proof. exact meta_effect. Qed.
+Print Assumptions C04_meta.
+
+(* ---- set_data / rename at the level of step: the forest is re-labelled on a group that is empty
+        (nothing to do), the node itself, or its whole clone group; kind and meta are never touched ---- *)
+Theorem C04_set_data : forall w ti n d e wc r w',
+  step w (OSetData ti n d e wc) = (Ok r, w') ->
+  exists t t' s group g,
+    get_tree w ti = Some t /\ get_tree w' ti = Some t' /\ get_node n (forest_of t) = Some s /\
+    forest_of t' = relabel group g (forest_of t) /\
+    (group = [] \/ group = [n] \/ group = idx_get (rdid s) (idx t)) /\
+    (forall i, i_kind (g i) = i_kind i /\ i_meta (g i) = i_meta i) /\
+    reg t' = reg t /\ next w' = next w.
+Proof. exact set_data_effect. Qed.
+Print Assumptions C04_set_data.
+
+(* ... and re-labelling a group changes the payload of exactly the rows of the group:
+   same nodes, same parents, same order *)
+Theorem C04_relabel_frame : forall g group f, NoDup (ids f) -> NoDup group -> incl group (ids f) ->
+  rows 0 (relabel group g f) = map (upd_rows group g) (rows 0 f) /\ ids (relabel group g f) = ids f.
+Proof. exact relabel_rows. Qed.
+Print Assumptions C04_relabel_frame.
+
+(* ---- del tree[key] removes the one node the key resolves to; rename is set_data on a str node ---- *)
+Theorem C04_del : forall w ti key r w',
+  step w (ODel ti key) = (Ok r, w') ->
+  exists t n, get_tree w ti = Some t /\ getitem t key = Some [n] /\ step w (ORemove ti n false false) = (Ok r, w').
+Proof. exact del_effect. Qed.
+Print Assumptions C04_del.
+
+Theorem C04_rename : forall w ti n d r w',
+  step w (ORename ti n d) = (Ok r, w') ->
+  exists t s, get_tree w ti = Some t /\ get_node n (forest_of t) = Some s /\ i_isstr (rinfo s) = true /\
+              step w (OSetData ti n (Some d) None None) = (Ok r, w').
+Proof. exact rename_effect. Qed.
+Print Assumptions C04_rename.
+
+(* ---- frame across trees, for EVERY operation and EVERY outcome (success, refusal, failing
+        callback): only the tree the operation works on can change; existing trees are never
+        dropped (ext = no shorter, and equal at every other index) ---- *)
+Theorem C04_frame_other_trees : forall w o,
+  length (trees w) <= length (trees (snd (step w o))) /\
+  forall tj, tj <> op_target w o -> tj < length (trees w) -> get_tree (snd (step w o)) tj = get_tree w tj.
+Proof. exact step_frame_trees. Qed.
+Print Assumptions C04_frame_other_trees.
+
+(* ---- sort(deep=True): relational specification [deep_sorted] (no fuel, no failure flag): at every
+        level of the branch the child list is the stable sorted permutation py_sort of what it was ---- *)
+Theorem C04_sort_deep_branch : forall k rv fuel t t',
+  sort_deep fuel k rv t false = (t', false) -> size t < fuel -> deep_sorted k rv t t'.
+Proof. exact sort_deep_spec. Qed.
+Print Assumptions C04_sort_deep_branch.
+
+(* sort / sort_children at the level of step, deep or not: effect on the named child list, frame on
+   all other rows, registry and index untouched *)
+Theorem C04_sort : forall w ti p k rv dp r w',
+  step w (OSort ti p k rv dp) = (Ok r, w') ->
+  exists t t' pq ch ch',
+    get_tree w ti = Some t /\ get_tree w' ti = Some t' /\
+    parent_path p (forest_of t) = Some pq /\ get_ch pq (forest_of t) = Some ch /\
+    get_ch pq (forest_of t') = Some ch' /\
+    (if dp then Forall2 (deep_sorted k rv) (py_sort k rv ch) ch' else ch' = py_sort k rv ch) /\
+    repl_rows (rows p ch) (rows p ch') (rows 0 (forest_of t)) (rows 0 (forest_of t')) /\
+    reg t' = reg t /\ idx t' = idx t /\
+    (forall tj, tj <> ti -> get_tree w' tj = get_tree w tj).
+Proof. exact sort_effect. Qed.
+Print Assumptions C04_sort.
+
 (* non-vacuity: a concrete history on which the hypotheses hold *)
 Definition dA : dat := D 0 0 11 true [97%Z].
 Definition dB : dat := D 1 1 12 true [98%Z].
@@ -135,3 +285,17 @@ Proof. eexists _, _. split; vm_compute; reflexivity. Qed.
 Example C04_remove_keep_nonvacuous :
   exists t t', get_tree w2 0 = Some t /\ remove_keep t 1 = Some t' /\ map rid (forest_of t') = [2].
 Proof. eexists _, _. repeat split; vm_compute; reflexivity. Qed.
+Example C04_move_nonvacuous :
+  exists r w', step w2 (OMove 0 2 0 0 BTrue) = (Ok r, w') /\
+               map rid (forest_of (nth 0 (trees w') (TS [] [] [] false None))) = [2; 1].
+Proof. eexists _, _. split; vm_compute; reflexivity. Qed.
+Example C04_sort_nonvacuous :
+  let k : keyt := [(1, Some [98%Z]); (2, Some [97%Z]); (3, Some [98%Z])] in
+  map rid (py_sort k false [T 1 dummy_info []; T 2 dummy_info []; T 3 dummy_info []]) = [2; 1; 3] /\
+  map rid (py_sort k true [T 1 dummy_info []; T 2 dummy_info []; T 3 dummy_info []]) = [1; 3; 2].
+Proof. split; vm_compute; reflexivity. Qed.
+Example C04_sort_deep_nonvacuous :
+  let k : keyt := [(1, Some [97%Z]); (2, Some [99%Z]); (3, Some [98%Z])] in
+  let t := T 1 dummy_info [T 2 dummy_info []; T 3 dummy_info []] in
+  exists t', sort_deep 5 k false t false = (t', false) /\ map rid (rch t') = [3; 2].
+Proof. eexists. split; vm_compute; reflexivity. Qed.
